@@ -5,6 +5,7 @@ abbrev Str := List Ch
 
 inductive MErr
   | math (pos : Nat)          -- MathExpressionException with scanner.pos
+  | mathNoPos                 -- MathExpressionException raised without a scanner (no position)
   | zeroDiv
   | internal (tag : String)
   | fuel
@@ -114,18 +115,23 @@ def parseLoop : Nat → Str → Nat → Int → Nat → List Token → Except ME
 def popWhile (t : Token) : List Token → List Token → List Token × List Token     -- (operators stack top-first, operands rev)
   | o :: os, operands => if t.priority ≤ o.priority then popWhile t os (o :: operands) else (o :: os, operands)
   | [], operands => ([], operands)
-def orderLoop : List Token → List Token → List Token → Nat → List Token × List Token × Nat
-  -- tokens, operators (top first), operands (reversed), nOperators
-  | [], ops, operands, n => (ops, operands, n)
-  | t :: ts, ops, operands, n =>
-    if t.type == .num then orderLoop ts ops (t :: operands) n
-    else
-      let n' := n + (if t.type == .op1 then 1 else 2)
-      let (ops', operands') := popWhile t ops operands
-      orderLoop ts (t :: ops') operands' n'
+/-- `order_tokens` loop (a prefix operator never pops; the parity counter is `arity`): tokens, operators (top first), operands (reversed) -/
+def orderLoopF : List Token → List Token → List Token → List Token × List Token
+  | [], ops, operands => (ops, operands)
+  | t :: ts, ops, operands =>
+    if t.type == .num then orderLoopF ts ops (t :: operands)
+    else if t.type == .op1 then orderLoopF ts (t :: ops) operands
+    else orderLoopF ts (t :: (popWhile t ops operands).1) (popWhile t ops operands).2
+
+/-- `order_tokens` without the parity test -/
+def orderF (tokens : List Token) : List Token :=
+  (orderLoopF tokens [] []).2.reverse ++ (orderLoopF tokens [] []).1
+
+def arity (ts : List Token) : Nat :=
+  (ts.map fun t => if t.type == .num then 0 else if t.type == .op1 then 1 else 2).sum
+/-- `order_tokens`: `None` when `n_operators + 1 != len(tokens)` (parity) -/
 def orderTokens (tokens : List Token) : Option (List Token) :=
-  let (ops, operands, n) := orderLoop tokens [] [] 0
-  if n + 1 == operands.length + ops.length then some (operands.reverse ++ ops) else none      -- operators.reverse() = top first
+  if arity tokens + 1 != tokens.length then none else some (orderF tokens)
 
 def parse (s : Str) : Except MErr (List Token) := do
   let (tokens, prio, pos) ← parseLoop (s.length + 1) s 0 0 (Primary + LParen + Sign) []
@@ -154,15 +160,22 @@ def evalLoop : List Token → List Q → Except MErr (List Q)
       match st with
       | n1 :: rest => evalLoop ts (n1.neg :: rest)
       | [] => .error (.internal "IndexError")
-    | .null => .error (.internal "Exception")
+    | .null => .error .mathNoPos                       -- MathExpressionException('Invalid expression')
 
-def evaluate (s : Str) : Except MErr (Option Q) := do
-  let expr ← parse s
-  if expr.isEmpty then return none
-  let st ← evalLoop expr []
-  match st with
-  | [v] => return some v
-  | [] => .error (.internal "IndexError")
-  | _ => .error (.internal "Exception")           -- parity
+/-- `evaluate(expr)` for a string: `parse` (tokenize, parenthesis check, parity, ordering) then the RPN loop -/
+def evaluateF (s : Str) : Except MErr (Option Q) := do
+  let (tokens, prio, pos) ← parseLoop (s.length + 1) s 0 0 (Primary + LParen + Sign) []
+  if prio ≥ 10 then .error (.math pos)
+  else if arity tokens + 1 != tokens.length then .error (.math pos)
+  else
+    let expr := orderF tokens
+    if expr.isEmpty then return none
+    let st ← evalLoop expr []
+    match st with
+    | [v] => return some v
+    | [] => .error (.internal "IndexError")
+    | _ => .error .mathNoPos                           -- parity (unreachable: theorem)
+
+def evaluate (s : Str) : Except MErr (Option Q) := evaluateF s
 
 end M
